@@ -1,5 +1,6 @@
 import GuppyVerif.Lemmas.C09Run
 import GuppyVerif.Lemmas.C09Term
+import GuppyVerif.Lemmas.C09TermA
 /-! # C09 — Dataflow analyses equal the path-based solution in any visit order
 
 Property theorems only.  All are for an arbitrary well-formed CFG (`Cfg.WF`: edges recorded
@@ -8,9 +9,8 @@ arbitrary use/assign sets, dummy edges, unreachable blocks and cycles, **no boun
 and for **every** visiting order: `LReach`/`AReach` let any queued block be popped next.
 
 The path theorems are about every run that ends with an empty worklist (`liveRun`/`assRun`
-return `none` if the fuel runs out); `liveRun_terminates` shows that the liveness worklist does
-end, under every scheduler, within an explicit bound.  Termination of the forward (assignment)
-worklist is observed by the correspondence, not proved. -/
+return `none` if the fuel runs out); `liveRun_terminates` / `assRun_terminates` show that both
+worklists do end, under every scheduler, within explicit bounds. -/
 namespace GuppyVerif.Dataflow
 
 /-- **Liveness = path semantics, any order.**  After any run of the backward worklist that ends
@@ -161,6 +161,34 @@ theorem assRun_correct (g : Cfg) (hg : g.WF) (P : AParams) (sched : List Blk →
   obtain ⟨hr, he⟩ := assRun_reach g P sched fuel _ _ h
   have hq : ∀ c ∈ g.blocks, c ∉ t.queue := fun c _ => by rw [he]; exact List.not_mem_nil
   exact ⟨defass_iff_all_paths g hg P t hr hq b hb x, maybeass_iff_some_path g hg P t hr hq b hb x⟩
+
+/-- fuel that always suffices for the assignment worklist -/
+def assBound (g : Cfg) (P : AParams) : Nat :=
+  (2 * (assPairs g P).length + 1) * (g.blocks.length + 1)
+
+/-- **The assignment worklist terminates under every scheduler**, within `assBound` pops. -/
+theorem assRun_terminates (g : Cfg) (hg : g.WF) (P : AParams) (sched : List Blk → Blk)
+    (fuel : Nat) (hf : assBound g P ≤ fuel) :
+    (assRun g P sched fuel (assInit g P)).isSome = true := by
+  apply assRun_isSome g hg P sched fuel _ (atinv_init g hg P)
+  refine Nat.le_trans ?_ hf
+  unfold assPot assBound
+  have h1 : (assPairs g P).countP (pendD (assInit g P).aftD) ≤ (assPairs g P).length := List.countP_le_length
+  have h2 : (assPairs g P).countP (pendM P (assInit g P).aftM) ≤ (assPairs g P).length := List.countP_le_length
+  have h3 := countP_queue_le g (assInit g P).queue
+  calc _ ≤ (2 * (assPairs g P).length) * (g.blocks.length + 1) + g.blocks.length :=
+        Nat.add_le_add (Nat.mul_le_mul_right _ (by omega)) h3
+    _ ≤ _ := by rw [Nat.add_mul]; omega
+
+/-- total correctness of the forward analysis -/
+theorem assRun_total (g : Cfg) (hg : g.WF) (P : AParams) (sched : List Blk → Blk) :
+    ∃ t, assRun g P sched (assBound g P) (assInit g P) = some t ∧
+      ∀ b ∈ g.blocks, ∀ x,
+        (x ∈ t.befD b ↔ x ∈ allVars g P ∧ ¬ NotDef g P x b) ∧
+        (x ∈ t.befM b ↔ MaybePath g P x b ∨ (x ∈ P.entryMaybe ∧ InfBack g b)) := by
+  have h := assRun_terminates g hg P sched _ (Nat.le_refl _)
+  obtain ⟨t, ht⟩ := Option.isSome_iff_exists.mp h
+  exact ⟨t, ht, fun b hb x => assRun_correct g hg P sched _ t ht b hb x⟩
 
 /-! ## Non-vacuity: a CFG with a loop, a dummy edge into otherwise unreachable code, and a
     scheduler that is not index order; the hypotheses above are met and the runs terminate. -/
